@@ -146,3 +146,23 @@ func ZZ_C07_LaunchReceiver() {
 		zzLaunched[0].SrcFile == "", "C07.receiver.wrong-launch-request")
 	zzReach("C07.receiver.ok")
 }
+
+// C14 (addresses reach NewReplicaClient straight from request bodies: POST /v1/replicas
+// during a rebuild goes canAdd -> hasGreaterRevisionCount -> NewReplicaClient with the
+// controller lock taken by hand): whatever the address looks like, NewReplicaClient
+// returns a client or an error; it never panics.
+func ZZ_C14_NewReplicaClient() {
+	addr := zzPick("address", "tcp://h1:9502", "h1:9502", "http://h1:9502/v1", "tcp://h1", "h1", "", "tcp://", "tcp://h1:", "tcp://h1:port",
+		"tcp://[::1]:9502", "tcp://h1:9502:9503", ":9502", "tcp://:9502", "http://h1:9502")
+	c, err := NewReplicaClient(zzConcStr(addr))
+	if err == nil {
+		zzReach("C14.client.accepted")
+		zzAssert(c != nil, "C14.client.nil-without-error")
+		if c != nil {
+			zzAssert(c.address != "" && c.syncAgent != "", "C14.client.accepted-with-empty-endpoints")
+		}
+	} else {
+		zzReach("C14.client.refused")
+	}
+	zzReach("C14.client.done")
+}
